@@ -128,19 +128,29 @@ def check(ctx):
         chain = [s for s in cl.body if isinstance(s, ast.If)]
         if not chain:
             raise AnchorError("%s: clause dispatch chain not found" % fname)
-        # flatten if/elif chain
-        branches = []   # (keywords, body)
-        cur = chain[-1] if len(chain) == 1 else chain[0]
-        node = cur
+        # flatten the dispatch: an if/elif chain on `connective`, or (normal form N5 of a one-branch chain)
+        # a guard `if connective not in K / != k: raise` followed by the single branch's body
+        branches = []   # (keywords, body, node)
         has_else = None
-        while True:
-            ks = _lits(node.test)
-            branches.append((ks, node.body, node))
-            if len(node.orelse) == 1 and isinstance(node.orelse[0], ast.If):
-                node = node.orelse[0]
-                continue
-            has_else = node.orelse
-            break
+        first = [s for s in cl.body if isinstance(s, ast.If) and _lits(s.test) is not None]
+        node = first[0] if first else (chain[-1] if len(chain) == 1 else chain[0])
+        if not node.orelse and isinstance(node.test, ast.Compare) and isinstance(node.test.ops[0], (ast.NotIn, ast.NotEq)) \
+                and _lits(node.test) is not None and any(isinstance(x, ast.Raise) for x in node.body):
+            rest = cl.body[cl.body.index(node) + 1:]
+            carrier = ast.If(test=node.test, body=rest, orelse=[])
+            ast.copy_location(carrier, node)
+            carrier._module = node._module
+            branches.append((_lits(node.test), rest, carrier))
+            has_else = node.body
+        else:
+            while True:
+                ks = _lits(node.test)
+                branches.append((ks, node.body, node))
+                if len(node.orelse) == 1 and isinstance(node.orelse[0], ast.If):
+                    node = node.orelse[0]
+                    continue
+                has_else = node.orelse
+                break
         K = set()
         for ks, _, nd in branches:
             if ks is None:
